@@ -17,14 +17,14 @@ func run(n int, less, equal func(int) bool) string {
 	probes := 0
 	r := sortx.Search(n, func(i int) bool {
 		probes++
-		if probes > 200 {
+		if probes > 400 {
 			panic("too many probes")
 		}
 		fmt.Fprintf(&sb, " l%d", i)
 		return less(i)
 	}, func(i int) bool {
 		probes++
-		if probes > 200 {
+		if probes > 400 {
 			panic("too many probes")
 		}
 		fmt.Fprintf(&sb, " e%d", i)
